@@ -1737,8 +1737,10 @@ class Prog:
         self.nobj += 1
         return self.nobj - 1
 
-    def cmd(self, text, refs, tr):
-        self.steps.append(["cmd", text, [list(r) for r in refs], tr])
+    def cmd(self, text, refs, tr, dict_of=None):
+        """ParsedCommand(text, references).  dict_of = j: the very dict OBJECT that command j was
+        given is passed again (`refs = {...}; ParsedCommand(a, refs); ParsedCommand(b, refs)`)."""
+        self.steps.append(["cmd", text, [list(r) for r in refs], tr] + ([dict_of] if dict_of is not None else []))
         self.ncmd += 1
         return self.ncmd - 1
 
@@ -1888,6 +1890,31 @@ def obj_core(tier):
         for t in ([["remove", X]], [["remove", Y]], [["update", X, 90], ["remove", 90]],
                   [["update", Y, 90], ["remove", X]], [["update", X, 90], ["update", Y, 91], ["remove", 91]]):
             yield pr.case(t)
+    # two ParsedCommands built from ONE reference dict object (as coded each makes its own copy):
+    # the first is attached, the second only after update_id — it still names the old identifier
+    for variant in range(3):
+        pr = Prog(sh)
+        pr.stored(A, 7)
+        pr.stored(X, 1)
+        pr.stored(Y, 2)
+        refs = [["x", X], ["y z", Y]]
+        c1 = pr.cmd("{x} - { y z }", refs, ["b", "sub", ["r", "x", X], ["r", "y z", Y]])
+        p1 = pr.pl(c1)
+        pr.steps.append(["add", D, p1])
+        if variant == 0:
+            c2 = pr.cmd("{x} * 2", refs[:1], ["b", "mul", ["r", "x", X], ["n", "2"]], dict_of=c1)
+            p2 = pr.pl(c2)
+            tails = [[["update", X, 90], ["add", D + 1, p2], ["remove", 90]],
+                     [["add", D + 1, p2], ["update", X, 90], ["remove", 90]]]
+        elif variant == 1:
+            c2 = pr.cmd("{x} * 2", refs[:1], ["b", "mul", ["r", "x", X], ["n", "2"]], dict_of=c1)
+            tails = [[["update", X, 90], ["pl", c2], ["add", D + 1, pr.nobj], ["remove", 90]],
+                     [["update", Y, 91], ["pl", c2], ["radd", D + 1, pr.nobj], ["remove", X]]]
+        else:
+            tails = [[["update", X, 90], ["cmd", "{ y z } + 1", [["y z", Y]], ["b", "add", ["r", "y z", Y], ["n", "1"]], c1],
+                      ["pl", pr.ncmd], ["add", D + 1, pr.nobj], ["remove", Y]]]
+        for t in tails:
+            yield pr.case(t)
 
 
 class ObjFam(Family):
@@ -1925,6 +1952,7 @@ class ObjFam(Family):
         live.append(PIX0)
         fresh_d, fresh_n = DERIVED0, 90
         attached = {}                    # object -> identifiers it was added under
+        cmd_refs = []                    # per command: the reference dict it was built from
         L = rng.randint(5, 11 if tier == "quick" else 15)
 
         def pick():
@@ -1940,6 +1968,19 @@ class ObjFam(Family):
             if allow_const and r < 0.65:
                 return ["c", list(rng.choice(INT_CONSTS))]
             return K(pick())
+        if rng.random() < 0.8:
+            # most programs start with a link object (any kind) that is re-used at once
+            k0 = pick()
+            s0 = pr.sub(rng.choice("BUX"), k0, alt=rng.randrange(6))
+            if pr.ncmd:
+                cmd_refs.append([["x", k0]])
+            for _ in range(rng.randint(1, 2)):
+                l, rr = O(rng.randrange(s0, pr.nobj)), operand()
+                if rng.random() < 0.4:
+                    l, rr = rr, l
+                if l[0] == "c" and rr[0] == "c":
+                    rr = K(pick())
+                pr.bin(rng.choice(["add", "sub", "mul"]), l, rr, direct=rng.random() < 0.2)
         for i in range(L):
             r = rng.random()
             late = i >= L // 2
@@ -1955,12 +1996,23 @@ class ObjFam(Family):
             elif r < (0.46 if not late else 0.20):
                 if pr.ncmd and rng.random() < 0.35:
                     pr.pl(rng.randrange(pr.ncmd))            # another link on an existing command
+                elif cmd_refs and rng.random() < 0.3:
+                    # a further command from the reference dict OBJECT of an earlier one
+                    j = rng.randrange(len(cmd_refs))
+                    labels = [lab for lab, _ in cmd_refs[j]]
+                    keys = [key for _, key in cmd_refs[j]]
+                    tr = rand_ptree_int(rng, rng.randint(1, 2), labels, keys)
+                    used = sorted(set(ptree_refs(tr)))
+                    c = pr.cmd(pprint(tr, rng), [[lab, key] for lab, key in used], tr, dict_of=j)
+                    cmd_refs.append(cmd_refs[j])
+                    pr.pl(c)
                 else:
-                    k = rng.randint(1, 2)
+                    k = rng.randint(1, 3)
                     labels = rng.sample(TAG_LABELS, k)
                     keys = [pick() for _ in range(k)]
                     tr = rand_ptree_int(rng, rng.randint(1, 2), labels, keys)
                     c = pr.cmd(pprint(tr, rng), [[lab, key] for lab, key in zip(labels, keys)], tr)
+                    cmd_refs.append([[lab, key] for lab, key in zip(labels, keys)])
                     pr.pl(c)
             elif r < (0.72 if not late else 0.45) and pr.nobj:
                 # attach: mostly objects that are not attached yet, sometimes an attached one again
@@ -1998,7 +2050,7 @@ class ObjFam(Family):
         T = Tokens(arith=True)
         b = Built(case["shape"], None)
         extra = {}
-        objs, cmds = [], []
+        objs, cmds, refdicts = [], [], []
         sx_steps, obs = [], []
 
         def cid_of(k):
@@ -2064,7 +2116,13 @@ class ObjFam(Family):
                 objs.append(ComponentLink([cid_of(k) for k in st[1]], ComponentID("u"), using=f))
                 sx_steps.append(["fn", list(st[1]), st[2], bool(st[3])])
             elif kind == "cmd":
-                cmds.append(ParsedCommand(st[1], dict((lab, cid_of(k)) for lab, k in st[2])))
+                if len(st) > 4 and st[4] is not None:
+                    refd = refdicts[st[4]]          # the caller's dict object, passed once more
+                    assert all(refd[lab] is cid_of(k) for lab, k in st[2])
+                else:
+                    refd = dict((lab, cid_of(k)) for lab, k in st[2])
+                refdicts.append(refd)
+                cmds.append(ParsedCommand(st[1], refd))
                 sx_steps.append(["cmd"] + sx_link(["X", st[1], st[2]], T)[1:])
             elif kind == "pl":
                 objs.append(ParsedComponentLink(ComponentID("p"), cmds[st[1]]))
@@ -2157,6 +2215,11 @@ class ObjFam(Family):
                         ok = False
                     elif x[1] > ci:
                         x[1] -= 1
+                elif x[0] == "cmd" and made_cmd and len(x) > 4 and x[4] is not None:
+                    if x[4] == ci:
+                        ok = False
+                    elif x[4] > ci:
+                        x[4] -= 1
                 out.append(x)
             if ok:
                 yield dict(case, steps=out)
